@@ -2,10 +2,10 @@ SPECIFICATION Spec
 CONSTANTS Keys <- Keys5
  Vals = {"s", "L"}
  Path <- McPath
- Kinds = {"plain", "secure"}
- Lims = {0, 1, 2}
+ Variants <- VarQuick
  MaxOld = 0
  ReopenModes = {"same", "fresh", "restart"}
+ Ticking = FALSE
  Merge = TRUE
-INVARIANTS TypeOK ShapeCanonical ReadsLastWritten RootBindsContent
+INVARIANTS TypeOK InsertKeepsCanonical DeleteKeepsCanonical ReadsLastWritten RootBindsContent
 CHECK_DEADLOCK FALSE
